@@ -1478,7 +1478,7 @@ class Validator:
                 elif u.fixed is not None and v != u.fixed:
                     F.add('attribute-fixed:lexically-different')
                 continue
-            if not t.base.simple and t.base is not ANYTYPE and t.method == 'restriction' and key in t.base.attrs:
+            if t.base is not None and not t.base.simple and t.base is not ANYTYPE and t.method == 'restriction' and key in t.base.attrs:
                 F.add('prohibited-attribute-present')
             aw = t.anyattr
             if aw is None or not nsc_allows(aw[0], ns):
